@@ -254,6 +254,39 @@ def run_invariance(ctx):
                 if not np.array_equal(np.asarray(base), np.asarray(aft)):
                     ctx.fail('sqrt_keeps_rank_evaluation', sig, f'{m} changed after sqrt_transform: '
                              f'{maxdiff(base, aft)}', dict(v1=v1, v2=v2))
+    # the library's own monotone transforms as the map, applied to RDMs objects (names and all):
+    # rank_transform with a tie-preserving method is strictly increasing on the values
+    meth = gen.pick(rng, ['average', 'min', 'max', 'dense'])
+    pd = {'cond': [f'c{i}' for i in range(n_cond)]}
+    o1 = RDMs(v1.copy(), pattern_descriptors={'cond': list(pd['cond'])}, dissimilarity_measure='euclidean')
+    o2 = RDMs(v2.copy(), pattern_descriptors={'cond': list(pd['cond'])}, dissimilarity_measure='euclidean')
+    r1 = T.rank_transform(o1, method=meth)
+    sub = sorted(rng.choice(n_cond, size=int(rng.integers(3, n_cond + 1)), replace=False).tolist())
+    subl = [f'c{i}' for i in sub]
+    for m in RANK_MEASURES:
+        sig = dict(measure=m, map='rank_transform:' + meth)
+        ok, base = ctx.guarded('invariance:rank', sig, compare, o1, o2, method=m)
+        ok2, aft = ctx.guarded('invariance:rank', sig, compare, r1, o2, method=m)
+        ok3, aft_r = ctx.guarded('invariance:rank', sig, compare, o2, r1, method=m)
+        if ok and ok2 and ok3:
+            ctx.case('invariance:rank', sig)
+            if not (np.array_equal(np.asarray(base), np.asarray(aft))
+                    and close(np.asarray(base).T, np.asarray(aft_r), 1e-12, 1e-13)):
+                ctx.fail('invariance:rank', sig, f'{m} changed after rank_transform(method={meth!r}) of one '
+                         f'argument: {maxdiff(base, aft)}', dict(v1=v1, v2=v2, method=meth))
+        # ... and after taking the same subset of conditions of transformed and untransformed RDMs
+        sig = dict(measure=m, map='rank_transform+subset')
+        s1, s2, sr = (o1.subset_pattern('cond', subl), o2.subset_pattern('cond', subl),
+                      r1.subset_pattern('cond', subl))
+        if any(np.ptp(r) < 1e-9 for r in list(s1.dissimilarities) + list(s2.dissimilarities)):
+            continue
+        ok, base = ctx.guarded('invariance:rank', sig, compare, s1, s2, method=m)
+        ok2, aft = ctx.guarded('invariance:rank', sig, compare, sr, s2, method=m)
+        if ok and ok2:
+            ctx.case('invariance:rank', sig)
+            if not np.array_equal(np.asarray(base), np.asarray(aft)):
+                ctx.fail('invariance:rank', sig, f'{m} on a condition subset changed after rank_transform: '
+                         f'{maxdiff(base, aft)}', dict(v1=v1, v2=v2, method=meth, subset=sub))
     # cosine family: positive scaling of either argument
     sc = float(rng.uniform(0.05, 20))
     sig_s = gen.spd(rng, n_cond, 20.0) if rng.integers(2) else None
